@@ -171,3 +171,98 @@ Proof.
   rewrite ?(Rabs_pos_eq 0), ?(Rabs_pos_eq 2), ?(Rabs_left1 (-1)) by lra.
   eval_R; cbn; auto.
 Qed.
+
+(** *** The model is the source (translator tie).
+    gen/Gen_c13.v is re-translated from /repo's eqsig/im.py and eqsig/fns/peaks_and_crossings.py at the start of every run of
+    this check (translator/py2coq_c13.py: Python [ast], whitelist grammar, fail-closed; every array assignment a [let] named by
+    its position, so a renamed temporary gives the same text).
+    PROVED for ALL inputs.  (1) For every [NumOps] instance (the Q run of the correspondence and the R theorems alike), with the
+    real power `**` an arbitrary binary function [pow] and np.sqrt an arbitrary [sq]: the translation of
+    calc_n_cyc_array_w_power_law -- switched peaks, np.abs(np.take), the cut-off np.where(. < cut_off * np.max(abs(values)), 1.0e-14, .),
+    perc = 0.5 / (n_ref * (a_ref / peaks) ** (1 / b)) with n_ref = 1, cumsum, the four np.insert, interp1d(kind='previous') on
+    np.arange(len(values)) -- IS [n_cyc_core_interp]; the translations of calc_cyc_amp_array_w_power_law (np.zeros_like / np.put,
+    cumsum(|s| ** (1. / b) / 2 / n_cyc) ** b, the scalar-b branch of the final reshape), ..._gm_... (np.sqrt of the product of two
+    calls) and ..._combined_... ARE [cyc_amp], [cyc_amp_gm], [cyc_amp_combined] with pw = pow . (1 / b), pwb = pow . b.
+    (2) At R with pow = [rpow], sq = sqrt they are [n_cyc_interp_R] = [n_cyc_R], [cyc_amp_R], [cyc_amp_gm_R],
+    [cyc_amp_combined_R] (arithmetic used: 1 * z = z, 1 / b = / b, 1 / 10^14 = the model's tiny), so every power-law theorem above is
+    about the code that is in /repo; the default cut_off is 0.01.
+    (3) Peak-only series, at R, for every non-constant series: the translations of determine_peaks_only_delta_series and
+    determine_pseudo_cyclic_peak_only_series (with the two `_4_cleaned_data` helpers inlined: rebase `values -= values[0]`,
+    clean_out_non_changing, orientation `*= np.sign(cleaned[1])`, np.take at the cleaned peak positions, np.diff + np.insert(., 0, 0)
+    resp. signs = where(mod(arange, 2), -1, 1) and where(-signs * pv < 0, -|pv|, |pv|), np.put into zeros of the cleaned length, np.put
+    into zeros of the record length at the plateau starts) ARE [delta_series] / [pseudo_series] -- PARTIAL (hence the names): the two
+    functions the source calls, clean_out_non_changing and determine_indices_of_peaks_for_cleaned_array, are parameters [clean], [cpk]
+    of the generated definitions and the theorems assume what they return: for values[0] = 0 the values at the plateau starts and
+    the plateau starts; for the cleaned values of a non-constant series strictly ascending in-range positions whose images under the
+    plateau starts are [peaks] (the model of get_peak_array_indices).  These two hypotheses are the C11 statement "the
+    ediff1d/where pipeline is the declarative peak list"; they are not proved in this file (checked for the literal pipeline on every
+    series over {-1,0,1/2,1,2} up to length 6 by vm_compute during development).
+    A changed operand / index / sign / literal / comparison in any translated statement changes the generated term and breaks one of
+    these obligations (or is rejected by the translator).
+    NOT proved (still only decided by the correspondence): that NumPy/SciPy's take, where, cumsum, insert, put, diff, sign, mod, arange,
+    interp1d(kind='previous') are the list functions named in the header of gen/Gen_c13.v (the translator's reading of each
+    whitelisted call; [np.put] = [scatter] needs strictly ascending positions), `[:, np.newaxis]` / array-valued b broadcasting
+    (read column by column), dtype effects of np.zeros_like on integer input, the exception paths (IndexError on a constant series,
+    the assert), binary64 rounding. *)
+From EQ Require Import gen.Gen_c13 proofs.P_gen_c13.
+
+Theorem C13_n_cyc_is_source : forall (T : Type) (ops : NumOps T) (pow : T -> T -> T) (xs : list T) (a_ref b cut : T),
+  gen_n_cyc pow xs a_ref b cut =
+  n_cyc_core_interp (fun v => n1 * pow (a_ref / v) (n1 / b))%num cut (n1 / nofZ 100000000000000)%num xs.
+Proof. exact (@P_gen_c13.gen_n_cyc_eq). Qed.
+Theorem C13_cyc_amp_is_source : forall (T : Type) (ops : NumOps T) (pow : T -> T -> T) (xs : list T) (ncyc b : T),
+  gen_cyc_amp pow xs ncyc b = cyc_amp (fun x => pow x (n1 / b)%num) (fun x => pow x b) ncyc xs.
+Proof. exact (@P_gen_c13.gen_cyc_amp_eq). Qed.
+Theorem C13_cyc_amp_gm_is_source : forall (T : Type) (ops : NumOps T) (sq : T -> T) (pow : T -> T -> T) (xs ys : list T) (ncyc b : T),
+  gen_cyc_amp_gm sq pow xs ys ncyc b = cyc_amp_gm sq (fun x => pow x (n1 / b)%num) (fun x => pow x b) ncyc xs ys.
+Proof. exact (@P_gen_c13.gen_cyc_amp_gm_eq). Qed.
+Theorem C13_cyc_amp_combined_is_source : forall (T : Type) (ops : NumOps T) (pow : T -> T -> T) (xs ys : list T) (ncyc b : T),
+  gen_cyc_amp_combined pow xs ys ncyc b = cyc_amp_combined (fun x => pow x (n1 / b)%num) (fun x => pow x b) ncyc xs ys.
+Proof. exact (@P_gen_c13.gen_cyc_amp_combined_eq). Qed.
+(** at R, with the real power *)
+Theorem C13_n_cyc_is_source_R : forall a_ref b cut (xs : list R),
+  gen_n_cyc rpow xs a_ref b cut = n_cyc_interp_R a_ref b cut xs /\ gen_n_cyc rpow xs a_ref b cut = n_cyc_R a_ref b cut xs.
+Proof. intros. split; [apply P_gen_c13.gen_n_cyc_interp_R|apply P_gen_c13.gen_n_cyc_R]. Qed.
+Theorem C13_cyc_amp_is_source_R : forall ncyc b (xs : list R), gen_cyc_amp rpow xs ncyc b = cyc_amp_R ncyc b xs.
+Proof. exact P_gen_c13.gen_cyc_amp_R. Qed.
+Theorem C13_cyc_amp_gm_is_source_R : forall ncyc b (xs ys : list R), gen_cyc_amp_gm sqrt rpow xs ys ncyc b = cyc_amp_gm_R ncyc b xs ys.
+Proof. exact P_gen_c13.gen_cyc_amp_gm_R. Qed.
+Theorem C13_cyc_amp_combined_is_source_R : forall ncyc b (xs ys : list R),
+  gen_cyc_amp_combined rpow xs ys ncyc b = cyc_amp_combined_R ncyc b xs ys.
+Proof. exact P_gen_c13.gen_cyc_amp_combined_R. Qed.
+Theorem C13_default_cut_off_is_source : @gen_n_cyc_default_cut_off R _ = 0.01.
+Proof. exact P_gen_c13.gen_n_cyc_default_cut_off_R. Qed.
+(** hence the inverse law holds of the translated source functions themselves *)
+Theorem C13_source_inverse : forall a_ref b cut (xs : list R), 0 < a_ref -> b <> 0 -> no_cut cut xs -> first_up xs <> None ->
+  last (gen_cyc_amp rpow xs (last (gen_n_cyc rpow xs a_ref b cut) 0) b) 0 = a_ref.
+Proof. exact P_gen_c13.source_inverse. Qed.
+
+(** peak-only series: full statement  [gen_delta_series clean cpk xs = delta_series xs]  for the clean / cpk of the source;
+    proved here for every clean / cpk that return what is stated (see (3) above) *)
+Theorem C13_delta_series_is_source_partial : forall (clean : list R -> list R * list nat) (cpk : list R -> list nat) (xs : list R),
+  (forall v, v <> [] -> xat v 0 = 0 ->
+     clean v = (map (xat v) (filter (pstart v) (seq 0 (length v))), filter (pstart v) (seq 0 (length v)))) ->
+  (forall ys, first_up ys <> None ->
+     let ps := filter (pstart ys) (seq 0 (length ys)) in let c := map (xat ys) ps in
+     ascending (cpk c) /\ (forall k, In k (cpk c) -> (k < length c)%nat) /\ map (fun k => nth k ps 0%nat) (cpk c) = peaks ys) ->
+  first_up xs <> None ->
+  gen_delta_series clean cpk xs = delta_series xs.
+Proof. exact P_gen_c13.gen_delta_series_eq. Qed.
+Theorem C13_pseudo_series_is_source_partial : forall (clean : list R -> list R * list nat) (cpk : list R -> list nat) (xs : list R),
+  (forall v, v <> [] -> xat v 0 = 0 ->
+     clean v = (map (xat v) (filter (pstart v) (seq 0 (length v))), filter (pstart v) (seq 0 (length v)))) ->
+  (forall ys, first_up ys <> None ->
+     let ps := filter (pstart ys) (seq 0 (length ys)) in let c := map (xat ys) ps in
+     ascending (cpk c) /\ (forall k, In k (cpk c) -> (k < length c)%nat) /\ map (fun k => nth k ps 0%nat) (cpk c) = peaks ys) ->
+  first_up xs <> None ->
+  gen_pseudo_series clean cpk xs = pseudo_series xs.
+Proof. exact P_gen_c13.gen_pseudo_series_eq. Qed.
+(** under the same two hypotheses the conservation identities hold of the translated source functions *)
+Theorem C13_source_conservation_partial : forall clean cpk (xs : list R), P_gen_c13.clean_spec clean -> P_gen_c13.cpk_spec cpk ->
+  first_up xs <> None ->
+  nsum (vabs (gen_delta_series clean cpk xs)) = tv xs /\
+  nsum (gen_pseudo_series clean cpk xs) = / 2 * tv xs + / 2 * sgn_final xs * (last xs 0 - xat xs 0).
+Proof. intros. split; [now apply P_gen_c13.source_delta_abs_sum|now apply P_gen_c13.source_pseudo_sum]. Qed.
+(** the first hypothesis is satisfiable outright; the second is the C11 pipeline statement *)
+Example C13_clean_spec_nonvacuous : P_gen_c13.clean_spec (fun v => (map (xat v) (P_gen_c13.pst v), P_gen_c13.pst v)).
+Proof. exact P_gen_c13.clean_spec_sat. Qed.
